@@ -12,8 +12,10 @@ import PQ.Lemmas.BulkProps
 Model: `MaxQ.intoSortedVec` / `DQ.intoAscendingSortedVec` / `DQ.intoDescendingSortedVec` pop until empty;
 the PQ sorted iterator is `bp_popCalls n` (`n` calls of `next`, `next = pop`); the DPQ sorted iterator is
 `DQ.sortedCalls calls` (`false` = `next` = `pop_min`, `true` = `next_back` = `pop_max`).  Both sorted iterators own
-the queue, `len()` is `pq.len()` and `size_hint()` is `(len, Some(len))`: what they report is the `size` of the
-store the iterator still holds.
+the queue.  The DoublePriorityQueue one declares `ExactSizeIterator`: its `len()` is `pq.len()` and its `size_hint()` is
+`(len, Some(len))` — what it reports is the `size` of the store it still holds (the statement about those answers is
+`C13_sorted_dpq_exact_size`, on the machine the driver runs, `Model/SortedIter.lean`).  The PriorityQueue one implements only
+`next` (no `len`, the default `size_hint() = (0, None)`), as `Model/SortedIter.lean` has it.
 
 "Every stored element exactly once" is `l.Perm s.map.toList` (the list is a permutation of the entry list of the map);
 `a` before `b` in a non-increasing list is `¬ a.2 < b.2`, in a non-decreasing one `¬ b.2 < a.2`.
@@ -36,7 +38,7 @@ example : MaxQ.Inv bp_exP ∧ bp_okR (MaxQ.intoSortedVec bp_exP)
 
 /-- **`into_sorted_iter` of a `PriorityQueue`, consumed from the front**: with `l` the sorted vector, ANY number `n` of
 `next` calls never faults and answers the first `n` elements of `l` (all of `l` when `n ≥ len`) and then `None`
-forever; the iterator then holds a correctly ordered queue of `len - n` elements (what `len`/`size_hint` report) whose
+forever; the iterator then holds a correctly ordered queue of `len - n` elements (the `size` of the store it holds; this iterator implements neither `len` nor `size_hint`) whose
 own sorted vector is the rest of `l` -/
 theorem C06_pq_sorted_iter {s : Store P} (h : MaxQ.Inv s) :
     ∃ l, MaxQ.intoSortedVec s = .ok l ∧ l.Perm s.map.toList ∧ l.Pairwise (fun a b => ¬ a.2 < b.2) ∧
